@@ -19,3 +19,123 @@ package bug
 //@ func Comment.CombinedId
 //@   trusted
 //@   modifies nothing
+
+// ---- interpretation of operations (C10) -------------------------------------------------------------
+
+// Operation ids are cached attributes of the operation object (pure functions of it).
+//@ func (*SetTitleOperation).Id
+//@ func (*SetStatusOperation).Id
+//@ func (*AddCommentOperation).Id
+//@ func (*CreateOperation).Id
+//@ func (*EditCommentOperation).Id
+//@ func (*LabelChangeOperation).Id
+//@   trusted
+//@   purefn
+
+//@ func (*Snapshot).Id
+//@   props C10
+//@   maypanic
+//@   requires snap != nil
+//@   modifies nothing
+//@   ensures result == snap.id
+
+// actors / participants: each author once (compared by id), in order of first appearance
+//@ func (*Snapshot).addActor
+//@   props C10
+//@   nopanic
+//@   requires snap != nil && actor != nil && (forall k int :: { snap.Actors[k] } 0 <= k && k < len(snap.Actors) ==> snap.Actors[k] != nil)
+//@   modifies snap.Actors, elems(snap.Actors)
+//@   let n = len(old(snap.Actors))
+//@   let present = exists k int :: 0 <= k && k < n && old(snap.Actors[k]).Id() == actor.Id()
+//@   ensures [prefix-kept] len(snap.Actors) >= n && (forall k int :: { snap.Actors[k] } 0 <= k && k < n ==> snap.Actors[k] == old(snap.Actors[k]))
+//@   ensures [unchanged-if-present] present ==> len(snap.Actors) == n
+//@   ensures [added-if-absent] !present ==> len(snap.Actors) == n + 1 && snap.Actors[n] == actor
+//@   ensures [now-present]     exists k int :: 0 <= k && k < len(snap.Actors) && snap.Actors[k].Id() == actor.Id()
+//@   ensures [same-or-fresh-array] (sarr(snap.Actors) == sarr(old(snap.Actors)) && sarr(snap.Actors) != 0) || fresh(snap.Actors) || len(snap.Actors) == 0
+//@   loop 1
+//@     invariant forall k int :: { snap.Actors[k] } 0 <= k && k <= rangeindex ==> snap.Actors[k].Id() != actor.Id()
+
+//@ func (*Snapshot).addParticipant
+//@   props C10
+//@   nopanic
+//@   requires snap != nil && participant != nil && (forall k int :: { snap.Participants[k] } 0 <= k && k < len(snap.Participants) ==> snap.Participants[k] != nil)
+//@   modifies snap.Participants, elems(snap.Participants)
+//@   let n = len(old(snap.Participants))
+//@   let present = exists k int :: 0 <= k && k < n && old(snap.Participants[k]).Id() == participant.Id()
+//@   ensures [prefix-kept] len(snap.Participants) >= n && (forall k int :: { snap.Participants[k] } 0 <= k && k < n ==> snap.Participants[k] == old(snap.Participants[k]))
+//@   ensures [unchanged-if-present] present ==> len(snap.Participants) == n
+//@   ensures [added-if-absent] !present ==> len(snap.Participants) == n + 1 && snap.Participants[n] == participant
+//@   ensures [now-present]     exists k int :: 0 <= k && k < len(snap.Participants) && snap.Participants[k].Id() == participant.Id()
+//@   ensures [same-or-fresh-array] (sarr(snap.Participants) == sarr(old(snap.Participants)) && sarr(snap.Participants) != 0) || fresh(snap.Participants) || len(snap.Participants) == 0
+//@   loop 1
+//@     invariant forall k int :: { snap.Participants[k] } 0 <= k && k <= rangeindex ==> snap.Participants[k].Id() != participant.Id()
+
+// set-title: the title becomes the operation's, the author is an actor, the timeline gains exactly one
+// set-title item carrying the new and previous title; nothing else of the snapshot changes (frame).
+//@ func (*SetTitleOperation).Apply
+//@   props C10
+//@   nopanic
+//@   requires [objects]   op != nil && snapshot != nil && op.Author() != nil && (forall k int :: { snapshot.Actors[k] } 0 <= k && k < len(snapshot.Actors) ==> snapshot.Actors[k] != nil)
+//@   requires [valid-ids] len(snapshot.id) >= 50 && len(op.Id()) >= 14
+//@   requires [separate]  sarr(snapshot.Actors) != sarr(snapshot.Participants)
+//@   modifies snapshot.Title, snapshot.Actors, elems(snapshot.Actors), snapshot.Timeline, elems(snapshot.Timeline)
+//@   let n = len(old(snapshot.Timeline))
+//@   ensures [title]    snapshot.Title == op.Title
+//@   ensures [timeline] len(snapshot.Timeline) == n + 1 && (forall k int :: { snapshot.Timeline[k] } 0 <= k && k < n ==> snapshot.Timeline[k] == old(snapshot.Timeline[k]))
+//@   ensures [item]     typeof(snapshot.Timeline[n]) == type[*SetTitleTimelineItem] && snapshot.Timeline[n].(*SetTitleTimelineItem).Title == op.Title && snapshot.Timeline[n].(*SetTitleTimelineItem).Was == op.Was && snapshot.Timeline[n].(*SetTitleTimelineItem).Author == op.Author() && snapshot.Timeline[n].(*SetTitleTimelineItem).combinedId == entity.CombineIds(snapshot.id, op.Id())
+//@   ensures [actor]    exists k int :: 0 <= k && k < len(snapshot.Actors) && snapshot.Actors[k].Id() == op.Author().Id()
+
+//@ func (*SetStatusOperation).Apply
+//@   props C10
+//@   nopanic
+//@   requires [objects]   op != nil && snapshot != nil && op.Author() != nil && (forall k int :: { snapshot.Actors[k] } 0 <= k && k < len(snapshot.Actors) ==> snapshot.Actors[k] != nil)
+//@   requires [valid-ids] len(snapshot.id) >= 50 && len(op.Id()) >= 14
+//@   modifies snapshot.Status, snapshot.Actors, elems(snapshot.Actors), snapshot.Timeline, elems(snapshot.Timeline)
+//@   let n = len(old(snapshot.Timeline))
+//@   ensures [status]   snapshot.Status == op.Status
+//@   ensures [timeline] len(snapshot.Timeline) == n + 1 && (forall k int :: { snapshot.Timeline[k] } 0 <= k && k < n ==> snapshot.Timeline[k] == old(snapshot.Timeline[k]))
+//@   ensures [item]     typeof(snapshot.Timeline[n]) == type[*SetStatusTimelineItem] && snapshot.Timeline[n].(*SetStatusTimelineItem).Status == op.Status && snapshot.Timeline[n].(*SetStatusTimelineItem).Author == op.Author() && snapshot.Timeline[n].(*SetStatusTimelineItem).combinedId == entity.CombineIds(snapshot.id, op.Id())
+//@   ensures [actor]    exists k int :: 0 <= k && k < len(snapshot.Actors) && snapshot.Actors[k].Id() == op.Author().Id()
+
+// a comment timeline item starts with the comment's own text, files, author and id
+//@ func NewCommentTimelineItem
+//@   props C10
+//@   nopanic
+//@   modifies nothing
+//@   ensures result.combinedId == comment.combinedId && result.Author == comment.Author && result.Message == comment.Message && result.Files == comment.Files && result.CreatedAt == comment.unixTime && result.LastEdit == comment.unixTime && len(result.History) == 1 && result.History[0].Message == comment.Message
+
+// add-comment: exactly one comment is appended (text, files, author of the operation; combined id of bug
+// and operation), the author becomes actor and participant, the timeline gains one add-comment item.
+//@ func (*AddCommentOperation).Apply
+//@   props C10
+//@   nopanic
+//@   requires [objects]   op != nil && snapshot != nil && op.Author() != nil && snapshot.id != "" && (forall k int :: { snapshot.Actors[k] } 0 <= k && k < len(snapshot.Actors) ==> snapshot.Actors[k] != nil) && (forall k int :: { snapshot.Participants[k] } 0 <= k && k < len(snapshot.Participants) ==> snapshot.Participants[k] != nil)
+//@   requires [valid-ids] len(snapshot.id) >= 50 && len(op.Id()) >= 14
+//@   requires [separate]  sarr(snapshot.Actors) != sarr(snapshot.Participants) || sarr(snapshot.Actors) == 0
+//@   modifies snapshot.Actors, elems(snapshot.Actors), snapshot.Participants, elems(snapshot.Participants), snapshot.Comments, elems(snapshot.Comments), snapshot.Timeline, elems(snapshot.Timeline)
+//@   let n = len(old(snapshot.Comments))
+//@   let m = len(old(snapshot.Timeline))
+//@   ensures [comments] len(snapshot.Comments) == n + 1 && (forall k int :: { snapshot.Comments[k] } 0 <= k && k < n ==> snapshot.Comments[k] == old(snapshot.Comments[k]))
+//@   ensures [comment]  snapshot.Comments[n].Message == op.Message && snapshot.Comments[n].Files == op.Files && snapshot.Comments[n].Author == op.Author() && snapshot.Comments[n].targetId == op.Id() && snapshot.Comments[n].combinedId == entity.CombineIds(snapshot.id, op.Id())
+//@   ensures [timeline] len(snapshot.Timeline) == m + 1 && (forall k int :: { snapshot.Timeline[k] } 0 <= k && k < m ==> snapshot.Timeline[k] == old(snapshot.Timeline[k])) && typeof(snapshot.Timeline[m]) == type[*AddCommentTimelineItem]
+//@   ensures [item]     snapshot.Timeline[m].(*AddCommentTimelineItem).CommentTimelineItem.Message == op.Message && snapshot.Timeline[m].(*AddCommentTimelineItem).CommentTimelineItem.combinedId == entity.CombineIds(snapshot.id, op.Id())
+//@   ensures [actor]       exists k int :: 0 <= k && k < len(snapshot.Actors) && snapshot.Actors[k].Id() == op.Author().Id()
+//@   ensures [participant] exists k int :: 0 <= k && k < len(snapshot.Participants) && snapshot.Participants[k].Id() == op.Author().Id()
+
+// create: (on a snapshot whose id is unset or already this operation's id) the snapshot takes the
+// operation's id, title and author, has exactly one comment (the message), one create timeline item, and
+// the author as actor and participant; a second, foreign create operation changes nothing.
+//@ func (*CreateOperation).Apply
+//@   props C10
+//@   nopanic
+//@   requires [objects]   op != nil && snapshot != nil && op.Author() != nil && (forall k int :: { snapshot.Actors[k] } 0 <= k && k < len(snapshot.Actors) ==> snapshot.Actors[k] != nil) && (forall k int :: { snapshot.Participants[k] } 0 <= k && k < len(snapshot.Participants) ==> snapshot.Participants[k] != nil)
+//@   requires [valid-ids] len(op.Id()) >= 50
+//@   requires [separate]  sarr(snapshot.Actors) != sarr(snapshot.Participants) || sarr(snapshot.Actors) == 0
+//@   modifies snapshot.id, snapshot.Title, snapshot.Author, snapshot.CreateTime, snapshot.Actors, elems(snapshot.Actors), snapshot.Participants, elems(snapshot.Participants), snapshot.Comments, snapshot.Timeline
+//@   let foreign = old(snapshot.id) != "" && old(snapshot.id) != entity.UnsetId && old(snapshot.id) != op.Id()
+//@   ensures [foreign-create-is-noop] foreign ==> snapshot.id == old(snapshot.id) && snapshot.Title == old(snapshot.Title) && snapshot.Comments == old(snapshot.Comments) && snapshot.Timeline == old(snapshot.Timeline) && snapshot.Actors == old(snapshot.Actors) && snapshot.Participants == old(snapshot.Participants)
+//@   ensures [id-title-author] !foreign ==> snapshot.id == op.Id() && snapshot.Title == op.Title && snapshot.Author == op.Author()
+//@   ensures [one-comment]     !foreign ==> len(snapshot.Comments) == 1 && snapshot.Comments[0].Message == op.Message && snapshot.Comments[0].Author == op.Author() && snapshot.Comments[0].targetId == op.Id() && snapshot.Comments[0].combinedId == entity.CombineIds(op.Id(), op.Id())
+//@   ensures [one-item]        !foreign ==> len(snapshot.Timeline) == 1 && typeof(snapshot.Timeline[0]) == type[*CreateTimelineItem] && snapshot.Timeline[0].(*CreateTimelineItem).CommentTimelineItem.Message == op.Message
+//@   ensures [actor]           !foreign ==> exists k int :: 0 <= k && k < len(snapshot.Actors) && snapshot.Actors[k].Id() == op.Author().Id()
+//@   ensures [participant]     !foreign ==> exists k int :: 0 <= k && k < len(snapshot.Participants) && snapshot.Participants[k].Id() == op.Author().Id()
